@@ -139,6 +139,23 @@ def run(tier, replay=None):
             if not inner_ok or not back_ok or sealed != mine:
                 v.violation(f'payloads {[p["t"] for p in ps]} inside an encrypted payload do not round-trip / differ from the RFC layout',
                             {'inner_ok': inner_ok, 'back_ok': back_ok, 'bytes_equal': sealed == mine}, signature={'component': 'in_sk'})
+            # (4a) serialisation is a function of the CURRENT content of the object: the same Message serialised, its header changed (next Message ID, the
+            #      other exchange type, response flag, the peer's SPI filled in), and serialised again gives the layout of what it says now
+            if n['in_sk'] % 8 == 0:
+                mobj = V.build_message(hh, [], encrypted=[V.build_payload(p) for p in ps], crypto=cr, iv=b'\x31' * 16)
+                first = bytes(mobj.to_bytes())
+                mobj.message_id = (mobj.message_id + 1) % (1 << 32)
+                mobj.is_response = not mobj.is_response
+                mobj.exchange_type = V.M.Message.Exchange.INFORMATIONAL
+                mobj.spi_r = b'\x6b' * 8
+                again = bytes(mobj.to_bytes())
+                n['reserialised'] = n.get('reserialised', 0) + 1
+                want2 = W.enc_message({'spi_i': bytes(h['spi_i']), 'spi_r': b'\x6b' * 8, 'xchg': 37, 'response': not h['response'], 'version': h['version'],
+                                       'initiator': h['initiator'], 'mid': (h['mid'][0] * 65536 + h['mid'][1] + 1) % (1 << 32), 'major': h['major'], 'minor': h['minor']}, [],
+                                      sk={'ke': keys['ke'], 'ka': keys['ka'], 'integ': keys['integ'], 'iv': b'\x31' * 16, 'inner': [denorm(p) for p in ps]})
+                if first == sealed and again != want2:
+                    v.violation('a protected message serialised a second time after its header was changed does not have the layout of its current content',
+                                {'header_now': again[:28].hex(), 'header_wanted': want2[:28].hex(), 'same_as_first': again == first}, signature={'component': 'reserialise'})
         # (4b) clear payloads in front of the encrypted payload (3.14: SK is the last payload; the header names the first payload of the message)
         if len(ps) == 2 and expressible(ps) and n['mixed'] < (300 if tier == 'quick' else 10 ** 9):
             cr, keys = V.make_crypto(128 if n['mixed'] % 2 else 256, (12, 14, 2)[n['mixed'] % 3])
